@@ -374,26 +374,22 @@ func (r *Reconciler) selectNodes(logger logr.Logger, daemonset *datadoghqv1alpha
 		return nodeNameRestarts[nodeList.Items[i].Name] < nodeNameRestarts[nodeList.Items[j].Name]
 	})
 
-	// Filter Nodes Unschedulable
-	for _, node := range nodeList.Items {
-		found := false
-		var id int
-		for id = range currentNodes {
-			if node.Name == currentNodes[id] {
-				found = true
-
-				break
-			}
-		}
-
-		if !found {
-			continue
-		}
-
-		if !scheduler.CheckNodeFitness(logger.WithValues("filter", "Nodes Unschedulabled"), newPod, &node) {
-			currentNodes = append(currentNodes[:id], currentNodes[id+1:]...)
+	// Keep only the previously selected Nodes that still exist, still match the canary node selector
+	// and are still schedulable.
+	fitNodes := make(map[string]bool, len(nodeList.Items))
+	for id := range nodeList.Items {
+		node := &nodeList.Items[id]
+		if utils.ContainsString(currentNodes, node.Name) {
+			fitNodes[node.Name] = scheduler.CheckNodeFitness(logger.WithValues("filter", "Nodes Unschedulabled"), newPod, node)
 		}
 	}
+	var keptNodes []string
+	for _, name := range currentNodes {
+		if fitNodes[name] && !utils.ContainsString(keptNodes, name) {
+			keptNodes = append(keptNodes, name)
+		}
+	}
+	currentNodes = keptNodes
 
 	// Look for other nodes to use as canary
 	if len(currentNodes) < nbCanaryPod {
